@@ -51,6 +51,11 @@ class PeakAmplitudeConstraint(BaseConstraint):
         Returns:
             torch.Tensor: Amplitude-constrained signal with the same shape as input
         """
+        if torch.is_complex(x):
+            # clamp is not defined for complex tensors: limit the magnitude and keep the phase
+            magnitude = torch.abs(x)
+            scale = torch.clamp(self.max_amplitude / torch.clamp(magnitude, min=torch.finfo(magnitude.dtype).tiny), max=1.0)
+            return x * scale
         # Simple clipping approach
         return torch.clamp(x, -self.max_amplitude, self.max_amplitude)
 
